@@ -262,6 +262,7 @@ type analysis struct {
 	rootDecl *node
 	gotos    map[string][]*rel // states at goto statements, per label (current function)
 	ptrAlias map[*types.Var][2]string // non-escaping local p := &x.f...  ->  (type, field)
+	pubLoc   map[string][2]string // "!pub:<var>" marker -> atomic location the local was published through
 	calls    map[string]*rawCall
 	callInt  map[string]bool // callees of interest (node names); nil = all (selftest)
 	leaks    map[*types.Func]bool
@@ -604,6 +605,9 @@ func (a *analysis) expr(e ast.Expr, c ctx) {
 	case *ast.SelectorExpr:
 		a.selector(x, c)
 	case *ast.StarExpr:
+		if isWriteCtx(c) {
+			a.pubWrite(x.X, x.Pos())
+		}
 		if id, isId := x.X.(*ast.Ident); isId {
 			if v, ok := a.info().Uses[id].(*types.Var); ok {
 				if al, ok := a.ptrAlias[v]; ok {
@@ -704,6 +708,9 @@ func (a *analysis) ident(x *ast.Ident, c ctx) {
 	}
 	switch o := obj.(type) {
 	case *types.Var:
+		if isWriteCtx(c) {
+			a.pubWrite(x, x.Pos())
+		}
 		if pp := a.params[o]; pp != nil {
 			// a func-typed parameter used other than by calling/forwarding it
 			pp.forced = true
@@ -723,6 +730,93 @@ func (a *analysis) ident(x *ast.Ident, c ctx) {
 		}
 	}
 }
+
+// publish: x.Store(v) on an atomic.Value / atomic.Pointer x (a field of a listed type or a
+// package-level variable) with v a local variable: from here on the object v refers to is
+// shared, so a write THROUGH v later in this function (v[i] = .., v.f = .., *v = ..,
+// copy(v, ..)) is a plain write to published data: it is recorded as a KWrite access of x.
+func (a *analysis) publish(recv ast.Expr, arg ast.Expr) {
+	for {
+		switch x := arg.(type) {
+		case *ast.ParenExpr:
+			arg = x.X
+			continue
+		case *ast.UnaryExpr:
+			if x.Op == token.AND {
+				arg = x.X
+				continue
+			}
+		}
+		break
+	}
+	id, ok := arg.(*ast.Ident)
+	if !ok {
+		return
+	}
+	v, ok := a.info().Uses[id].(*types.Var)
+	if !ok || v.IsField() || v.Pkg() == nil || v.Parent() == v.Pkg().Scope() {
+		return
+	}
+	var loc [2]string
+	if fn := a.fieldName(recv); fn != "" {
+		i := strings.LastIndex(fn, ".")
+		loc = [2]string{fn[:i], fn[i+1:]}
+	} else {
+		for {
+			if p, ok := recv.(*ast.ParenExpr); ok {
+				recv = p.X
+				continue
+			}
+			break
+		}
+		var gid *ast.Ident
+		switch x := recv.(type) {
+		case *ast.Ident:
+			gid = x
+		case *ast.SelectorExpr:
+			if a.info().Selections[x] == nil {
+				gid = x.Sel
+			}
+		}
+		if gid == nil {
+			return
+		}
+		g, ok := a.info().Uses[gid].(*types.Var)
+		if !ok || g.Pkg() == nil || g.Parent() != g.Pkg().Scope() || a.pkgOf[g.Pkg()] == nil {
+			return
+		}
+		loc = [2]string{"$" + g.Pkg().Name(), g.Name()}
+	}
+	key := fmt.Sprintf("!pub:%d", v.Pos())
+	a.pubLoc[key] = loc
+	a.st.may[key] = true
+}
+
+// pubWrite: a write through the local id; if the local may have been published, record it.
+func (a *analysis) pubWrite(e ast.Expr, pos token.Pos) {
+	for {
+		if p, ok := e.(*ast.ParenExpr); ok {
+			e = p.X
+			continue
+		}
+		break
+	}
+	id, ok := e.(*ast.Ident)
+	if !ok {
+		return
+	}
+	v, ok := a.info().Uses[id].(*types.Var)
+	if !ok {
+		return
+	}
+	key := fmt.Sprintf("!pub:%d", v.Pos())
+	if a.st.may[key] {
+		loc := a.pubLoc[key]
+		a.record(loc[0], loc[1], "KWrite", pos, false)
+	}
+}
+
+func isWriteCtx(c ctx) bool { return c == cWrite || c == cAddrArg || c == cAddrElse }
 
 func (a *analysis) global(o *types.Var, c ctx, pos token.Pos) {
 	if !a.globalsW[o] {
@@ -790,6 +884,9 @@ func (a *analysis) selector(x *ast.SelectorExpr, c ctx) {
 		}
 		// the operand
 		xt := a.info().TypeOf(x.X)
+		if isWriteCtx(c) {
+			a.pubWrite(x.X, x.Sel.Pos())
+		}
 		if id, isId := x.X.(*ast.Ident); isId {
 			if v, ok := a.info().Uses[id].(*types.Var); ok {
 				if al, ok := a.ptrAlias[v]; ok {
@@ -1241,6 +1338,9 @@ func (a *analysis) call(c *ast.CallExpr, how string) {
 		a.expr(cl.sel.X, cSyncRecv)
 		if fn := a.fieldName(cl.sel.X); fn != "" {
 			a.recordCall(fn+"."+cl.name, howOf(how), c.Pos())
+		}
+		if how == "call" && (cl.name == "Store" || cl.name == "Swap" || cl.name == "CompareAndSwap") && len(c.Args) > 0 {
+			a.publish(cl.sel.X, c.Args[len(c.Args)-1])
 		}
 		if syncCallback(cl.fn) && how == "call" {
 			a.syncArgs(c)
@@ -2267,7 +2367,7 @@ func run(pkgs []*packages.Package, interest map[*types.TypeName]string, allStruc
 		params: map[*types.Var]*pparam{}, litVar: map[*types.Var]*node{},
 		facts: map[string]*rawFact{}, chans: map[string]chanFact{}, gos: map[string]goFact{},
 		unks: map[string]unkFact{}, globalsW: map[*types.Var]bool{}, universe: map[string]bool{},
-		ptrAlias: map[*types.Var][2]string{}, calls: map[string]*rawCall{}, callInt: callsOfInterest,
+		ptrAlias: map[*types.Var][2]string{}, calls: map[string]*rawCall{}, callInt: callsOfInterest, pubLoc: map[string][2]string{},
 	}
 	if allStruct {
 		a.callInt = nil
@@ -2584,7 +2684,9 @@ func (a *analysis) outCalls() []outCall {
 			}
 		}
 		for k := range c.st.may {
-			maybe = append(maybe, k)
+			if !strings.HasPrefix(k, "!") {
+				maybe = append(maybe, k)
+			}
 		}
 		sort.Strings(after)
 		sort.Strings(maybe)
@@ -2705,6 +2807,11 @@ func header() string {
    - calls of exported-named methods of unexported types from outside the analysed packages
      (they are treated as entry points, i.e. empty lockset: safe);
    - panics as control flow (a deferred function is assumed to run after a normal return);
+   Publication: after x.Store(v) / Swap / CompareAndSwap on an atomic.Value or atomic.Pointer
+   x (field of a listed type or package-level variable) with v a local variable, a write
+   through v in the same function (v[i] = .., v.f = .., *v = .., copy(v, ..)) is recorded as
+   a KWrite access of x ("written after publish"); passing v on to another function is not
+   followed.
    Further rules: a label that is the target of a goto is treated as a loop head; a
    function literal handed to sort.Slice & co. or sync.Once.Do runs in place; a local
    p := &x.f[i] that is only dereferenced makes every use of p an access of x.f; fields of a
